@@ -1,16 +1,392 @@
 import Girc.Spec.EventSpec
 import Girc.Proofs.Utf8
+/-
+  C03 proofs about `Event.Bytes` / `Event.Len`.
+  `san` = the sanitiser (`toValidUTF8 []` then drop CR/LF). Key facts: it only deletes bytes
+  (`san_sublist`), distributes over ASCII separators (`san_append_ascii`), and is the identity on
+  clean fields (`san_of_clean`). `rawBytes_length` ties the raw buffer to `eventLen` for all events.
+-/
+set_option linter.unusedSimpArgs false
 namespace Girc.Proofs.Serialize
-open Girc Girc.Model Girc.Spec
+open Girc Girc.Model Girc.Spec Girc.Proofs.Utf8
+
+/-- The sanitiser applied by `Event.Bytes`. -/
+def san (s : Bytes) : Bytes := (toValidUTF8 [] s).filter (fun b => !isCRLF b)
+
+theorem eventBytes_eq_san (e : Event) : eventBytes e = san (rawBytes e) := rfl
+
+theorem san_nil : san [] = [] := rfl
+
+theorem san_sublist (s : Bytes) : (san s).Sublist s :=
+  (List.filter_sublist).trans (toValidUTF8_nil_sublist s)
+
+theorem san_append_ascii (a b : Bytes) (x : Byte) (hx : x < 0x80) (hn : isCRLF x = false) :
+    san (a ++ x :: b) = san a ++ x :: san b := by
+  simp [san, toValidUTF8_append_ascii [] a b x hx, List.filter_cons, hn]
 
 theorem no_crlf (e : Event) : CR ∉ eventBytes e ∧ LF ∉ eventBytes e := by
-  sorry
+  constructor <;> intro h <;> simp [eventBytes, List.mem_filter, isCRLF] at h
+
+theorem sourceBytes_length (s : Source) : (sourceBytes s).length = sourceLen s := by
+  unfold sourceBytes sourceLen
+  simp only [List.length_append]
+  split <;> split <;> simp <;> omega
+
+theorem paramsBytes_length : ∀ ps : List Bytes, (paramsBytes ps).length = paramsLen ps
+  | [] => rfl
+  | [p] => by
+    simp only [paramsBytes, paramsLen]
+    split <;> simp <;> omega
+  | p :: q :: ps => by
+    have := paramsBytes_length (q :: ps)
+    simp only [paramsBytes, paramsLen, List.length_cons, List.length_append] at this ⊢
+    omega
+
+theorem tagsWrite_length_some (t : Tags) :
+    (tagsWrite (some t)).length = if t.length > 0 then tagsLen (some t) + 1 else 0 := by
+  cases t with
+  | nil => rfl
+  | cons p t => simp [tagsWrite, tagsBytes, tagsLen]
+
+theorem rawBytes_length (e : Event) : (rawBytes e).length = eventLen e := by
+  obtain ⟨tags, source, command, params⟩ := e
+  simp only [rawBytes, eventLen, List.length_append, paramsBytes_length]
+  have ht : (tagsWrite tags).length =
+      (match tags with
+       | some t => if t.length > 0 then tagsLen (some t) + 1 else 0
+       | none => 0) := by
+    cases tags with
+    | none => rfl
+    | some t => exact tagsWrite_length_some t
+  have hs : (match source with
+       | some s => COLON :: sourceBytes s ++ [SP]
+       | none => []).length =
+      (match source with
+       | some s => sourceLen s + 2
+       | none => 0) := by
+    cases source with
+    | none => rfl
+    | some s => simp [sourceBytes_length]
+  cases tags <;> cases source <;> simp only [] at ht hs ⊢ <;> omega
 
 theorem len_ge (e : Event) : (eventBytes e).length ≤ eventLen e := by
-  sorry
+  rw [← rawBytes_length, eventBytes_eq_san]
+  exact (san_sublist _).length_le
+
+/-! ### Tag section: any append-closed predicate of keys/values holds of the section -/
+
+theorem mem_insertSorted {x a : Bytes} : ∀ {l : List Bytes}, x ∈ insertSorted a l → x = a ∨ x ∈ l
+  | [], h => by simp [insertSorted] at h; exact Or.inl h
+  | y :: ys, h => by
+    simp only [insertSorted] at h
+    split at h
+    · simpa using h
+    · rcases List.mem_cons.1 h with h | h
+      · exact Or.inr (h ▸ List.mem_cons_self)
+      · rcases mem_insertSorted h with h | h
+        · exact Or.inl h
+        · exact Or.inr (List.mem_cons_of_mem _ h)
+
+theorem mem_sortBytes {x : Bytes} : ∀ {l : List Bytes}, x ∈ sortBytes l → x ∈ l
+  | [], h => by simp [sortBytes] at h
+  | y :: ys, h => by
+    have h' : x ∈ insertSorted y (sortBytes ys) := h
+    rcases mem_insertSorted h' with h | h
+    · exact h ▸ List.mem_cons_self
+    · exact List.mem_cons_of_mem _ (mem_sortBytes h)
+
+theorem mem_of_lookup {β : Type} {k : Bytes} {v : β} : ∀ {t : List (Bytes × β)}, List.lookup k t = some v → (k, v) ∈ t
+  | [], h => by simp at h
+  | (k', v') :: t, h => by
+    simp only [List.lookup_cons] at h
+    split at h
+    · rename_i heq
+      have : k = k' := by simpa using heq
+      cases h; subst this; exact List.mem_cons_self
+    · exact List.mem_cons_of_mem _ (mem_of_lookup h)
+
+section pred
+variable (P : Bytes → Prop) (hnil : P []) (happ : ∀ a b, P a → P b → P (a ++ b))
+  (heq : P [0x3D]) (hsemi : P [0x3B])
+include hnil happ heq hsemi
+
+theorem tagsBytesLoop_pred (t : Tags) : ∀ (ks : List Bytes) (cur : Nat),
+    (∀ k ∈ ks, P k ∧ P ((AMap.get? t k).getD [])) → P (tagsBytesLoop t ks cur)
+  | [], _, _ => hnil
+  | k :: ks, cur, h => by
+    have hk := h k List.mem_cons_self
+    have h1 : P (if ((AMap.get? t k).getD []).length > 0 then 0x3D :: (AMap.get? t k).getD [] else []) := by
+      split
+      · exact happ [0x3D] _ heq hk.2
+      · exact hnil
+    have h2 : P (if ks.isEmpty then [] else [0x3B]) := by
+      split
+      · exact hnil
+      · exact hsemi
+    have ih := tagsBytesLoop_pred t ks
+    have key : ∀ (c : Prop) [Decidable c] (x : Bytes), P x → P (if c then [] else x) := by
+      intro c _ x hx; split
+      · exact hnil
+      · exact hx
+    simp only [tagsBytesLoop]
+    exact key _ _ (happ _ _ (happ _ _ (happ _ _ hk.1 h1) h2)
+      (ih _ (fun k' hk' => h k' (List.mem_cons_of_mem _ hk'))))
+
+theorem tagsBytesLoop_pred_sorted (t : Tags) (h : ∀ p ∈ t, P p.1 ∧ P p.2) (cur : Nat) :
+    P (tagsBytesLoop t (sortBytes (AMap.keys t)) cur) := by
+  apply tagsBytesLoop_pred P hnil happ heq hsemi
+  intro k hk
+  have hk' := mem_sortBytes hk
+  simp only [AMap.keys, List.mem_map] at hk'
+  obtain ⟨p, hp, rfl⟩ := hk'
+  refine ⟨(h p hp).1, ?_⟩
+  cases hl : AMap.get? t p.1 with
+  | none => exact hnil
+  | some v => exact (h _ (mem_of_lookup hl)).2
+
+end pred
+
+/-! ### Clean events are serialised verbatim -/
+
+theorem cleanField_nil : cleanField [] = true := rfl
+
+theorem cleanField_append (a b : Bytes) (ha : cleanField a = true) (hb : cleanField b = true) :
+    cleanField (a ++ b) = true := by
+  simp only [cleanField, Bool.and_eq_true, List.all_append] at ha hb ⊢
+  exact ⟨validUTF8_append a b ha.1 hb.1, ha.2, hb.2⟩
+
+theorem cleanField_cons_ascii (x : Byte) (s : Bytes) (hx : x < 0x80) (h1 : x ≠ CR) (h2 : x ≠ LF)
+    (hs : cleanField s = true) : cleanField (x :: s) = true := by
+  simp only [cleanField, Bool.and_eq_true, List.all_cons] at hs ⊢
+  refine ⟨?_, ?_, hs.2⟩
+  · rw [validUTF8_of_width_some (utf8Width_ascii s hx)]; exact hs.1
+  · simp [h1, h2]
+
+theorem cleanField_singleton (x : Byte) (hx : x < 0x80) (h1 : x ≠ CR) (h2 : x ≠ LF) :
+    cleanField [x] = true := cleanField_cons_ascii x [] hx h1 h2 rfl
+
+theorem san_of_clean (s : Bytes) (h : cleanField s = true) : san s = s := by
+  simp only [cleanField, Bool.and_eq_true] at h
+  unfold san
+  rw [toValidUTF8_of_valid [] s h.1, List.filter_eq_self]
+  intro b hb
+  have := List.all_eq_true.1 h.2 b hb
+  simpa [isCRLF] using this
+
+theorem cleanField_tagsWrite (t : Option Tags)
+    (h : t.all (fun t => t.all (fun p => cleanField p.1 && cleanField p.2)) = true) :
+    cleanField (tagsWrite t) = true := by
+  cases t with
+  | none => rfl
+  | some t =>
+    cases ht : t with
+    | nil => rfl
+    | cons p t' =>
+      rw [← ht]
+      have hne : t.isEmpty = false := by rw [ht]; rfl
+      simp only [tagsWrite, tagsBytes, hne, Bool.false_eq_true, if_false, List.isEmpty_cons]
+      apply cleanField_append _ _ _ (cleanField_singleton SP (by decide) (by decide) (by decide))
+      apply cleanField_cons_ascii _ _ (by decide) (by decide) (by decide)
+      apply tagsBytesLoop_pred_sorted (fun s => cleanField s = true) cleanField_nil cleanField_append
+        (cleanField_singleton _ (by decide) (by decide) (by decide))
+        (cleanField_singleton _ (by decide) (by decide) (by decide))
+      intro p hp
+      simp only [Option.all_some, List.all_eq_true, Bool.and_eq_true] at h
+      exact h p hp
+
+theorem cleanField_sourceBytes (s : Source)
+    (h : (cleanField s.name && cleanField s.ident && cleanField s.host) = true) :
+    cleanField (sourceBytes s) = true := by
+  simp only [Bool.and_eq_true] at h
+  unfold sourceBytes
+  refine cleanField_append _ _ (cleanField_append _ _ h.1.1 ?_) ?_
+  · split
+    · exact cleanField_cons_ascii _ _ (by decide) (by decide) (by decide) h.1.2
+    · rfl
+  · split
+    · exact cleanField_cons_ascii _ _ (by decide) (by decide) (by decide) h.2
+    · rfl
+
+theorem cleanField_paramsBytes : ∀ ps : List Bytes, ps.all cleanField = true →
+    cleanField (paramsBytes ps) = true
+  | [], _ => rfl
+  | [p], h => by
+    simp only [List.all_cons, List.all_nil, Bool.and_true] at h
+    simp only [paramsBytes]
+    split
+    · exact cleanField_cons_ascii _ _ (by decide) (by decide) (by decide)
+        (cleanField_cons_ascii _ _ (by decide) (by decide) (by decide) h)
+    · exact cleanField_cons_ascii _ _ (by decide) (by decide) (by decide) h
+  | p :: q :: ps, h => by
+    simp only [List.all_cons, Bool.and_eq_true] at h
+    simp only [paramsBytes]
+    have ih := cleanField_paramsBytes (q :: ps) (by simp [h.2.1, h.2.2])
+    exact cleanField_cons_ascii _ _ (by decide) (by decide) (by decide) (cleanField_append _ _ h.1 ih)
+
+theorem cleanField_rawBytes (e : Event) (h : cleanEvent e = true) : cleanField (rawBytes e) = true := by
+  simp only [cleanEvent, Bool.and_eq_true] at h
+  obtain ⟨⟨⟨hc, hp⟩, hs⟩, ht⟩ := h
+  unfold rawBytes
+  refine cleanField_append _ _ (cleanField_append _ _ (cleanField_append _ _
+    (cleanField_tagsWrite _ ht) ?_) hc) (cleanField_paramsBytes _ hp)
+  cases hsrc : e.source with
+  | none => rfl
+  | some s =>
+    rw [hsrc] at hs
+    simp only []
+    apply cleanField_cons_ascii _ _ (by decide) (by decide) (by decide)
+    exact cleanField_append _ _ (cleanField_sourceBytes s (by simpa using hs))
+      (cleanField_singleton SP (by decide) (by decide) (by decide))
 
 theorem len_eq (e : Event) (h : cleanEvent e = true) : eventLen e = (eventBytes e).length := by
-  sorry
+  rw [eventBytes_eq_san, san_of_clean _ (cleanField_rawBytes e h), rawBytes_length]
+
+/-! ### The command token survives serialisation -/
+
+theorem noSpace_iff (s : Bytes) : noSpace s = true ↔ SP ∉ s := by
+  simp [noSpace]
+
+theorem san_cons_ascii (x : Byte) (b : Bytes) (hx : x < 0x80) (hn : isCRLF x = false) :
+    san (x :: b) = x :: san b := by
+  simpa [san_nil] using san_append_ascii [] b x hx hn
+
+theorem not_mem_san {x : Byte} {s : Bytes} (h : x ∉ s) : x ∉ san s :=
+  fun hm => h ((san_sublist s).subset hm)
+
+theorem dropWhile_ne_append (x : Byte) : ∀ (u rest : Bytes), x ∉ u →
+    (u ++ x :: rest).dropWhile (· != x) = x :: rest
+  | [], rest, _ => by simp [List.dropWhile_cons]
+  | y :: u, rest, h => by
+    have hy : y ≠ x := fun e => h (e ▸ List.mem_cons_self)
+    have hu : x ∉ u := fun e => h (List.mem_cons_of_mem _ e)
+    simp [List.dropWhile_cons, hy, dropWhile_ne_append x u rest hu]
+
+theorem takeWhile_ne_append (x : Byte) : ∀ (u rest : Bytes), x ∉ u →
+    (u ++ x :: rest).takeWhile (· != x) = u
+  | [], rest, _ => by simp [List.takeWhile_cons]
+  | y :: u, rest, h => by
+    have hy : y ≠ x := fun e => h (e ▸ List.mem_cons_self)
+    have hu : x ∉ u := fun e => h (List.mem_cons_of_mem _ e)
+    simp [List.takeWhile_cons, hy, takeWhile_ne_append x u rest hu]
+
+theorem takeWhile_ne_self (x : Byte) : ∀ (u : Bytes), x ∉ u → u.takeWhile (· != x) = u
+  | [], _ => rfl
+  | y :: u, h => by
+    have hy : y ≠ x := fun e => h (e ▸ List.mem_cons_self)
+    have hu : x ∉ u := fun e => h (List.mem_cons_of_mem _ e)
+    simp [List.takeWhile_cons, hy, takeWhile_ne_self x u hu]
+
+theorem skipSection_lead (lead : Byte) (hl : lead ≠ SP) (u rest : Bytes) (hu : SP ∉ u) :
+    skipSection lead (lead :: u ++ SP :: rest) = rest := by
+  have : SP ∉ lead :: u := by
+    intro h; rcases List.mem_cons.1 h with h | h
+    · exact hl h.symm
+    · exact hu h
+  unfold skipSection
+  rw [if_pos (by simp), dropWhile_ne_append SP _ rest this]
+  rfl
+
+theorem skipSection_of_head_ne (lead : Byte) (line : Bytes) (h : line.head? ≠ some lead) :
+    skipSection lead line = line := by
+  unfold skipSection
+  rw [if_neg h]
+
+/-- Shape of a leading `@tags ` / `:source ` section. -/
+def Section (lead : Byte) (s : Bytes) : Prop := s = [] ∨ ∃ u, s = lead :: u ++ [SP] ∧ SP ∉ u
+
+theorem paramsBytes_shape (ps : List Bytes) : paramsBytes ps = [] ∨ ∃ q, paramsBytes ps = SP :: q := by
+  match ps with
+  | [] => exact Or.inl rfl
+  | [p] =>
+    right; simp only [paramsBytes]; split
+    · exact ⟨_, rfl⟩
+    · exact ⟨_, rfl⟩
+  | p :: q :: ps => right; exact ⟨_, rfl⟩
+
+theorem section_tagsWrite (t : Option Tags)
+    (ht : ∀ t', t = some t' → ∀ p ∈ t', noSpace p.1 = true ∧ noSpace p.2 = true) :
+    Section AT (tagsWrite t) := by
+  cases t with
+  | none => exact Or.inl rfl
+  | some t =>
+    cases hte : t with
+    | nil => exact Or.inl rfl
+    | cons p t' =>
+      rw [← hte]
+      have hne : t.isEmpty = false := by rw [hte]; rfl
+      right
+      refine ⟨tagsBytesLoop t (sortBytes (AMap.keys t)) 1, ?_, ?_⟩
+      · simp only [tagsWrite, tagsBytes, hne, Bool.false_eq_true, if_false, List.isEmpty_cons]
+        rfl
+      · apply tagsBytesLoop_pred_sorted (fun s => SP ∉ s) (by simp)
+          (fun a b ha hb => by simp [ha, hb]) (by decide) (by decide)
+        intro p hp
+        have := ht t rfl p hp
+        exact ⟨(noSpace_iff _).1 this.1, (noSpace_iff _).1 this.2⟩
+
+/-- The `:source ` section of the raw buffer. -/
+def srcSec : Option Source → Bytes
+  | some s => COLON :: sourceBytes s ++ [SP]
+  | none => []
+
+theorem rawBytes_eq (e : Event) :
+    rawBytes e = tagsWrite e.tags ++ (srcSec e.source ++ (e.command ++ paramsBytes e.params)) := by
+  obtain ⟨t, s, c, p⟩ := e
+  cases s <;> simp [rawBytes, srcSec]
+
+theorem section_source (src : Option Source)
+    (hs : ∀ s, src = some s → noSpace s.name = true ∧ noSpace s.ident = true ∧ noSpace s.host = true) :
+    Section COLON (srcSec src) := by
+  cases src with
+  | none => exact Or.inl rfl
+  | some s =>
+    right
+    refine ⟨sourceBytes s, rfl, ?_⟩
+    obtain ⟨h1, h2, h3⟩ := hs s rfl
+    rw [noSpace_iff] at h1 h2 h3
+    unfold sourceBytes
+    have hB : SP ≠ BANG := by decide
+    have hA : SP ≠ AT := by decide
+    split <;> split <;> simp [h1, h2, h3, hB, hA]
+
+theorem singleToken_facts {c : Bytes} (hc : singleToken c = true) :
+    c ≠ [] ∧ cleanField c = true ∧ SP ∉ c ∧ c.head? ≠ some COLON ∧ c.head? ≠ some AT := by
+  simp only [singleToken, Bool.and_eq_true, Bool.not_eq_true', bne_iff_ne, ne_eq,
+    List.all_eq_true] at hc
+  obtain ⟨⟨⟨⟨h1, h2⟩, h3⟩, h4⟩, h5⟩ := hc
+  refine ⟨?_, ?_, ?_, h4, h5⟩
+  · intro h; subst h; simp at h1
+  · simp only [cleanField, Bool.and_eq_true, List.all_eq_true, bne_iff_ne, ne_eq]
+    exact ⟨h2, fun b hb => ⟨(h3 b hb).1.2, (h3 b hb).2⟩⟩
+  · intro h; exact (h3 SP h).1.1 rfl
+
+theorem san_cmd_params (c : Bytes) (ps : List Bytes) (hc : cleanField c = true) :
+    ∃ P', (P' = [] ∨ ∃ q, P' = SP :: q) ∧ san (c ++ paramsBytes ps) = c ++ P' := by
+  rcases paramsBytes_shape ps with h | ⟨q, h⟩
+  · exact ⟨[], Or.inl rfl, by rw [h, List.append_nil, san_of_clean c hc]⟩
+  · refine ⟨SP :: san q, Or.inr ⟨_, rfl⟩, ?_⟩
+    rw [h, san_append_ascii c q SP (by decide) (by decide), san_of_clean c hc]
+
+theorem takeWhile_cmd (c P' : Bytes) (hsp : SP ∉ c) (hP : P' = [] ∨ ∃ q, P' = SP :: q) :
+    (c ++ P').takeWhile (· != SP) = c := by
+  rcases hP with rfl | ⟨q, rfl⟩
+  · rw [List.append_nil]; exact takeWhile_ne_self SP c hsp
+  · exact takeWhile_ne_append SP c q hsp
+
+theorem head?_append_of_ne_nil {c : Bytes} (P' : Bytes) (hne : c ≠ []) : (c ++ P').head? = c.head? := by
+  cases c with
+  | nil => exact absurd rfl hne
+  | cons x c => rfl
+
+/-- Skipping a sanitised leading section lands exactly on the sanitised remainder. -/
+theorem skipSection_san (lead : Byte) (hl1 : lead < 0x80) (hl2 : isCRLF lead = false) (hl3 : lead ≠ SP)
+    (S R : Bytes) (hS : Section lead S) (hR : (san R).head? ≠ some lead) :
+    skipSection lead (san (S ++ R)) = san R ∧ (S ≠ [] → (san (S ++ R)).head? = some lead) := by
+  rcases hS with rfl | ⟨u, rfl, hu⟩
+  · exact ⟨by rw [List.nil_append]; exact skipSection_of_head_ne lead _ hR, fun h => absurd rfl h⟩
+  · have e : lead :: u ++ [SP] ++ R = (lead :: u) ++ SP :: R := by simp
+    rw [e, san_append_ascii (lead :: u) R SP (by decide) (by decide), san_cons_ascii lead u hl1 hl2]
+    exact ⟨skipSection_lead lead hl3 (san u) (san R) (not_mem_san hu), fun _ => rfl⟩
 
 /-- For a single-token command the wire line's command is the event's command, whatever bytes
     (CR, LF, NUL, invalid UTF-8, embedded commands) the parameters contain. The two stated hypotheses:
@@ -19,6 +395,24 @@ theorem command_preserved (e : Event) (hc : singleToken e.command = true)
     (hs : ∀ s, e.source = some s → noSpace s.name = true ∧ noSpace s.ident = true ∧ noSpace s.host = true)
     (ht : ∀ t, e.tags = some t → ∀ p ∈ t, noSpace p.1 = true ∧ noSpace p.2 = true) :
     lineCommand (eventBytes e) = e.command := by
-  sorry
+  obtain ⟨hne, hclean, hsp, hcol, hat⟩ := singleToken_facts hc
+  obtain ⟨P', hP', hcore⟩ := san_cmd_params e.command e.params hclean
+  have hT := section_tagsWrite e.tags ht
+  have hS := section_source e.source hs
+  have hraw := rawBytes_eq e
+  generalize srcSec e.source = S at hS hraw
+  have hhead2 : (san (e.command ++ paramsBytes e.params)).head? = e.command.head? := by
+    rw [hcore]; exact head?_append_of_ne_nil P' hne
+  obtain ⟨hskipS, hheadS⟩ := skipSection_san COLON (by decide) (by decide) (by decide) S
+    (e.command ++ paramsBytes e.params) hS (by rw [hhead2]; exact hcol)
+  have hhead1 : (san (S ++ (e.command ++ paramsBytes e.params))).head? ≠ some AT := by
+    by_cases hSn : S = []
+    · subst hSn; rw [List.nil_append, hhead2]; exact hat
+    · rw [hheadS hSn]; decide
+  obtain ⟨hskipT, -⟩ := skipSection_san AT (by decide) (by decide) (by decide) (tagsWrite e.tags)
+    (S ++ (e.command ++ paramsBytes e.params)) hT hhead1
+  unfold lineCommand
+  rw [eventBytes_eq_san, hraw, hskipT, hskipS, hcore]
+  exact takeWhile_cmd e.command P' hsp hP'
 
 end Girc.Proofs.Serialize
